@@ -4,9 +4,17 @@ package main
 //
 //   - c06FindPath: the engine's cut-edge reachability made sensitive to *flag variables*:
 //     a branch on a boolean whose value is decided by the edge the path arrived on (phi of
-//     constants, or a boolean already tested by a dominating branch) only follows the decided
-//     successor. This is what lets "if ok && !usable(entry) { ok = false }; if !ok { refuse }"
-//     be read as a refusal.
+//     constants, a boolean already tested by a dominating branch, a local boolean merged in an
+//     earlier block whose incoming edge the path remembers, a boolean parameter that is a
+//     constant at the call site under analysis) only follows the decided successor. This is what
+//     lets "if ok && !usable(entry) { ok = false }; if !ok { refuse }" and
+//     "resumable := ok && usable(entry); ...; if !resumable { refuse }" be read as a refusal.
+//   - views (c06View): virtual inlining of same-package helpers, so that every rule finds a
+//     test / store / call where a contributor has moved it (see the section comment below):
+//     frame-aware provenance (Origins, Same, Prov), effect enumeration (Calls, Sets,
+//     StoresToField), path facts lifted through boolean / error-returning / effect helpers
+//     (c06Fact, Cuts, Summary, MustPassTo, EscapesFrom, c06Reach), who-may tables that accept
+//     private helpers of the allowed functions (c06WhoMay).
 //   - c06MustDepend: copy of ssahelp.go's mustDepend in which a call that is handed a local
 //     buffer also makes the buffer depend on the call itself (rand.Read(buf)).
 //   - small provenance helpers for ClassAd attribute lookups / Set calls.
@@ -40,6 +48,25 @@ type c06Pruner struct {
 	ifsOn map[ssa.Value][]c06BoolIf // boolean value -> branches testing it
 	dom   map[[3]int]bool           // memo of edgeDominates(edge{from,succ}, block)
 	domOk map[[3]int]bool
+	// tracked: local booleans (phis) that are branched on outside the block that merges them, or feed such a
+	// phi; the path search remembers through which predecessor it last entered their block
+	// ("usable := ok && good(x); if verbose {…}; if !usable {…}": at the last test the search still knows
+	// which operand usable carries).
+	tracked  []*ssa.Phi
+	trackIdx map[*ssa.Phi]int
+	// phiCuts: per cut set, branch edges that are cut only for paths on which a tracked phi took a given operand
+	phiCuts map[*Cuts]map[c06PhiCut]bool
+	// paramConst: boolean parameters with a value fixed by the call site this pruner is used for
+	paramConst map[ssa.Value]bool
+}
+
+// c06PhiCut: successor Succ of block From (a branch on Phi, merged elsewhere) is cut for paths that last
+// entered Phi's block through its predecessor #Pred.
+type c06PhiCut struct {
+	Phi  *ssa.Phi
+	Pred int
+	From *ssa.BasicBlock
+	Succ int
 }
 
 type c06BoolIf struct {
@@ -48,7 +75,16 @@ type c06BoolIf struct {
 }
 
 func c06NewPruner(fn *ssa.Function) *c06Pruner {
-	p := &c06Pruner{fn: fn, ifsOn: map[ssa.Value][]c06BoolIf{}, dom: map[[3]int]bool{}, domOk: map[[3]int]bool{}}
+	p := &c06Pruner{fn: fn, ifsOn: map[ssa.Value][]c06BoolIf{}, dom: map[[3]int]bool{}, domOk: map[[3]int]bool{},
+		trackIdx: map[*ssa.Phi]int{}, phiCuts: map[*Cuts]map[c06PhiCut]bool{}}
+	track := func(phi *ssa.Phi) bool {
+		if _, ok := p.trackIdx[phi]; ok || len(p.tracked) >= 6 {
+			return false
+		}
+		p.trackIdx[phi] = len(p.tracked)
+		p.tracked = append(p.tracked, phi)
+		return true
+	}
 	for _, b := range fn.Blocks {
 		ifi := blockIf(b)
 		if ifi == nil {
@@ -57,9 +93,36 @@ func c06NewPruner(fn *ssa.Function) *c06Pruner {
 		a := condAtom(ifi.Cond)
 		if a.Op == token.ILLEGAL && a.X != nil {
 			p.ifsOn[a.X] = append(p.ifsOn[a.X], c06BoolIf{b, a.Neg})
+			if phi, ok := a.X.(*ssa.Phi); ok && phi.Block() != b {
+				track(phi)
+			}
+		}
+	}
+	for i := 0; i < len(p.tracked); i++ {
+		for _, e := range p.tracked[i].Edges {
+			for {
+				u, ok := e.(*ssa.UnOp)
+				if !ok || u.Op != token.NOT {
+					break
+				}
+				e = u.X
+			}
+			if phi, ok := e.(*ssa.Phi); ok {
+				track(phi)
+			}
 		}
 	}
 	return p
+}
+
+// AddPhiCut registers a conditional cut with the cut set cuts.
+func (p *c06Pruner) AddPhiCut(cuts *Cuts, pc c06PhiCut) {
+	m := p.phiCuts[cuts]
+	if m == nil {
+		m = map[c06PhiCut]bool{}
+		p.phiCuts[cuts] = m
+	}
+	m[pc] = true
 }
 
 func (p *c06Pruner) edgeDom(e Edge, b *ssa.BasicBlock) bool {
@@ -72,26 +135,47 @@ func (p *c06Pruner) edgeDom(e Edge, b *ssa.BasicBlock) bool {
 	return r
 }
 
+// c06Env: for each tracked phi the index (+1) of the predecessor through which the path last entered its block (0: not yet).
+type c06Env [6]int8
+
 // valueAt: the value of boolean v for a path that has just arrived in block b from pred via.
 // known=false when the path does not decide it.
-func (p *c06Pruner) valueAt(v ssa.Value, b, via *ssa.BasicBlock, depth int) (val, known bool) {
-	if depth > 4 {
+func (p *c06Pruner) valueAt(v ssa.Value, b, via *ssa.BasicBlock, env c06Env, depth int) (val, known bool) {
+	if depth > 6 {
 		return false, false
 	}
 	if c, ok := constBool(v); ok {
 		return c, true
 	}
+	if c, ok := p.paramConst[v]; ok {
+		return c, true
+	}
 	if u, ok := v.(*ssa.UnOp); ok && u.Op == token.NOT {
-		x, k := p.valueAt(u.X, b, via, depth+1)
+		x, k := p.valueAt(u.X, b, via, env, depth+1)
 		return !x, k
 	}
 	if phi, ok := v.(*ssa.Phi); ok && phi.Block() == b && via != nil {
 		for i, pr := range b.Preds {
 			if pr == via {
 				// the operand is evaluated at the end of via, arriving along via->b
-				return p.operandAt(phi.Edges[i], via, b, depth+1)
+				return p.operandAt(phi.Edges[i], via, b, env, depth+1)
 			}
 		}
+		return false, false
+	}
+	if phi, ok := v.(*ssa.Phi); ok {
+		if j, tr := p.trackIdx[phi]; tr && env[j] > 0 {
+			k := int(env[j]) - 1
+			if k < len(phi.Edges) && k < len(phi.Block().Preds) {
+				if val, known := p.operandAt(phi.Edges[k], phi.Block().Preds[k], phi.Block(), env, depth+1); known {
+					return val, true
+				}
+			}
+		}
+	}
+	// a value computed in b itself is computed anew on this arrival (loop headers: "ok := next(it); if ok"):
+	// an earlier branch on it says nothing
+	if in, ok := v.(ssa.Instruction); ok && in.Block() == b {
 		return false, false
 	}
 	// a value defined elsewhere: decided if a branch on it dominates b, or is the edge just taken
@@ -99,13 +183,29 @@ func (p *c06Pruner) valueAt(v ssa.Value, b, via *ssa.BasicBlock, depth int) (val
 }
 
 // operandAt: value of boolean o at the end of block from, for the path continuing to block to.
-func (p *c06Pruner) operandAt(o ssa.Value, from, to *ssa.BasicBlock, depth int) (bool, bool) {
+func (p *c06Pruner) operandAt(o ssa.Value, from, to *ssa.BasicBlock, env c06Env, depth int) (bool, bool) {
+	if depth > 6 {
+		return false, false
+	}
 	if c, ok := constBool(o); ok {
 		return c, true
 	}
+	if c, ok := p.paramConst[o]; ok {
+		return c, true
+	}
 	if u, ok := o.(*ssa.UnOp); ok && u.Op == token.NOT {
-		x, k := p.operandAt(u.X, from, to, depth+1)
+		x, k := p.operandAt(u.X, from, to, env, depth+1)
 		return !x, k
+	}
+	if phi, ok := o.(*ssa.Phi); ok && phi.Block() != to {
+		if j, tr := p.trackIdx[phi]; tr && env[j] > 0 {
+			k := int(env[j]) - 1
+			if k < len(phi.Edges) && k < len(phi.Block().Preds) {
+				if val, known := p.operandAt(phi.Edges[k], phi.Block().Preds[k], phi.Block(), env, depth+1); known {
+					return val, true
+				}
+			}
+		}
 	}
 	return p.decidedBy(o, from, to)
 }
@@ -133,8 +233,8 @@ func (p *c06Pruner) decidedBy(v ssa.Value, from, to *ssa.BasicBlock) (bool, bool
 	return false, false
 }
 
-// allowed reports whether a path that arrived in b from via may continue along successor i.
-func (p *c06Pruner) allowed(b, via *ssa.BasicBlock, i int) bool {
+// allowed reports whether a path that arrived in b from via (with phi history env) may continue along successor i.
+func (p *c06Pruner) allowed(b, via *ssa.BasicBlock, env c06Env, i int) bool {
 	ifi := blockIf(b)
 	if ifi == nil || len(b.Succs) != 2 || b.Succs[0] == b.Succs[1] {
 		return true
@@ -143,7 +243,7 @@ func (p *c06Pruner) allowed(b, via *ssa.BasicBlock, i int) bool {
 	if a.Op != token.ILLEGAL {
 		return true
 	}
-	val, known := p.valueAt(a.X, b, via, 0)
+	val, known := p.valueAt(a.X, b, via, env, 0)
 	if !known {
 		return true
 	}
@@ -156,10 +256,37 @@ func (p *c06Pruner) allowed(b, via *ssa.BasicBlock, i int) bool {
 	return i == 1
 }
 
-// c06FindPath is findPath over (block, predecessor) states with flag-variable pruning.
+// enter: the phi history after stepping from block from into block to.
+func (p *c06Pruner) enter(env c06Env, from, to *ssa.BasicBlock) c06Env {
+	for j, phi := range p.tracked {
+		if phi.Block() != to {
+			continue
+		}
+		env[j] = 0
+		for k, pr := range to.Preds {
+			if pr == from {
+				env[j] = int8(k + 1)
+				break
+			}
+		}
+	}
+	return env
+}
+
+// c06FindPath is findPath over (block, predecessor, phi history) states with flag-variable pruning.
 func c06FindPath(pr *c06Pruner, start Point, tg Target, cuts *Cuts) []*ssa.BasicBlock {
+	return c06FindPathVia(pr, start, nil, tg, cuts)
+}
+
+// c06FindPathVia: as c06FindPath, for a path that entered start.Block from block via (the search then knows
+// which incoming value a boolean phi of that block carries).
+func c06FindPathVia(pr *c06Pruner, start Point, via *ssa.BasicBlock, tg Target, cuts *Cuts) []*ssa.BasicBlock {
 	tb := tg.Instr.Block()
 	tp := pointOf(tg.Instr)
+	var phiCuts map[c06PhiCut]bool
+	if cuts != nil {
+		phiCuts = pr.phiCuts[cuts]
+	}
 	scan := func(b *ssa.BasicBlock, idx int) (hit, blocked bool) {
 		for i := idx; i < len(b.Instrs); i++ {
 			if b == tb && i == tp.Idx {
@@ -171,20 +298,42 @@ func c06FindPath(pr *c06Pruner, start Point, tg Target, cuts *Cuts) []*ssa.Basic
 		}
 		return false, false
 	}
-	type node struct{ b, via *ssa.BasicBlock }
+	type node struct {
+		b, via *ssa.BasicBlock
+		env    c06Env
+	}
 	parent := map[node]node{}
 	seen := map[node]bool{}
-	root := node{start.Block, nil}
+	root := node{b: start.Block, via: via}
+	if via != nil {
+		root.env = pr.enter(root.env, via, start.Block)
+	}
 	var queue []node
 	expand := func(n node) {
+		var condPhi *ssa.Phi
+		if len(phiCuts) > 0 {
+			if ifi := blockIf(n.b); ifi != nil {
+				if a := condAtom(ifi.Cond); a.Op == token.ILLEGAL {
+					condPhi, _ = a.X.(*ssa.Phi)
+				}
+			}
+		}
 		for i, s := range n.b.Succs {
 			if cuts != nil && cuts.Edges[Edge{n.b, i}] {
 				continue
 			}
-			if !pr.allowed(n.b, n.via, i) {
+			if cuts != nil && n.via != nil && cuts.Via[viaEdge{n.via, n.b, i}] {
 				continue
 			}
-			m := node{s, n.b}
+			if condPhi != nil {
+				if j, tr := pr.trackIdx[condPhi]; tr && n.env[j] > 0 && phiCuts[c06PhiCut{condPhi, int(n.env[j]) - 1, n.b, i}] {
+					continue
+				}
+			}
+			if !pr.allowed(n.b, n.via, n.env, i) {
+				continue
+			}
+			m := node{s, n.b, pr.enter(n.env, n.b, s)}
 			if seen[m] {
 				continue
 			}
@@ -243,44 +392,6 @@ func c06FindPath(pr *c06Pruner, start Point, tg Target, cuts *Cuts) []*ssa.Basic
 	return nil
 }
 
-// c06PathToReturns: a flag-sensitive path from fn's entry to one of the returns avoiding cuts (nil if none).
-func c06PathToReturns(pr *c06Pruner, fn *ssa.Function, targets []RetPoint, cuts *Cuts) []*ssa.BasicBlock {
-	for _, t := range targets {
-		if p := c06FindPath(pr, entryPoint(fn), t.Target(), cuts); p != nil {
-			return p
-		}
-	}
-	return nil
-}
-
-// c06MustPassReturns is Ctx.mustPassReturns with the flag-sensitive search; one obligation per return
-// statement, keyed <fn>#return<N><suffix>.
-func (c *Ctx) c06MustPassReturns(rule string, pr *c06Pruner, fn *ssa.Function, targets []RetPoint, cuts *Cuts, suffix, what string) bool {
-	okAll := true
-	grouped := map[int][]RetPoint{}
-	var ords []int
-	for _, t := range targets {
-		o := retOrdinal(fn, t.Ret)
-		if _, ok := grouped[o]; !ok {
-			ords = append(ords, o)
-		}
-		grouped[o] = append(grouped[o], t)
-	}
-	sort.Ints(ords)
-	for _, o := range ords {
-		wit := c06PathToReturns(pr, fn, grouped[o], cuts)
-		construct := fmt.Sprintf("%s#return%d%s", fnName(fn), o, suffix)
-		pos := grouped[o][0].Ret.Pos()
-		if wit == nil {
-			c.Ok(rule, construct, "every path to this return passes "+what, pos)
-		} else {
-			okAll = false
-			c.Violate(rule, construct, "a path reaches this return without passing "+what, pos, c.describePath(wit)...)
-		}
-	}
-	return okAll
-}
-
 // c06SuccessTargets: successTargets minus "return fail(...)" exits, i.e. returns whose error operand is a
 // result of a call to a module function/closure that never returns a nil error.
 func (c *Ctx) c06SuccessTargets(fn *ssa.Function) []RetPoint {
@@ -312,7 +423,48 @@ func (c *Ctx) c06ErrFromNeverNil(fn *ssa.Function, r RetPoint) *ssa.Function {
 	if c.neverNil(g, map[int]bool{}, 0) {
 		return g
 	}
+	if cl, ok := call.(*ssa.Call); ok {
+		if nn := callArgsNonNil(c.Prog, fn, cl, r.Ret.Block()); len(nn) > 0 && c.c06NeverNilGiven(g, nn) {
+			return g
+		}
+	}
 	return nil
+}
+
+// c06NeverNilGiven: g never returns a nil error when its error parameters listed in nonNil are non-nil: the
+// returns behind a "param == nil" edge are not looked at ("if err == nil { return nil }" in a wrapper that
+// annotates errors).
+func (c *Ctx) c06NeverNilGiven(g *ssa.Function, nonNil map[int]bool) bool {
+	cuts := newCuts()
+	for i := range nonNil {
+		if i < len(g.Params) {
+			n, _ := nilEdges(g, g.Params[i])
+			cuts.AddEdges(n...)
+		}
+	}
+	n := 0
+	for _, r := range c.returnsOf(g) {
+		if findPath(entryPoint(g), r.Target(), cuts) == nil {
+			continue
+		}
+		n++
+		if r.Class == "error" {
+			continue
+		}
+		ev := c06ErrOperand(g, r.Ret)
+		if phi, ok := ev.(*ssa.Phi); ok && r.Pred != nil && phi.Block() == r.Ret.Block() {
+			for i, p := range phi.Block().Preds {
+				if p == r.Pred {
+					ev = phi.Edges[i]
+				}
+			}
+		}
+		if par, ok := ev.(*ssa.Parameter); ok && nonNil[c06ParamIndex(g, par)] {
+			continue
+		}
+		return false
+	}
+	return n > 0
 }
 
 func c06ErrOperand(fn *ssa.Function, ret *ssa.Return) ssa.Value {
@@ -508,90 +660,33 @@ func (c *Ctx) c06Fresh(fn *ssa.Function, v ssa.Value, depth int, active map[*ssa
 	})
 }
 
+// c06FreshX is c06Fresh for a value of a view: a parameter of a helper is as fresh as what the call site passes.
+func (c *Ctx) c06FreshX(vw *c06View, fv c06FV) bool {
+	if fv.V == nil || fv.F == nil {
+		return false
+	}
+	if c.c06Fresh(fv.F.Fn, fv.V, 3, map[*ssa.Function]bool{}) {
+		return true
+	}
+	return vw.MustDepend(fv, func(x c06FV) bool {
+		if _, isPar := x.V.(*ssa.Parameter); isPar {
+			return false // followed by MustDepend itself
+		}
+		if x.V == fv.V && x.F == fv.F {
+			return false
+		}
+		switch x.V.(type) {
+		case *ssa.Global, *ssa.Call:
+			return c.c06Fresh(x.F.Fn, x.V, 3, map[*ssa.Function]bool{})
+		}
+		return false
+	})
+}
+
 // ---------------------------------------------------------------------------
 // ClassAd helpers
 
-// c06AttrLookup: v is result #0 (value) or #1 (present) of ad.EvaluateAttr{String,Bool,Int}(name const).
-func c06AttrLookup(v ssa.Value) (call *ssa.Call, ad ssa.Value, name string, idx int, ok bool) {
-	ex, isEx := v.(*ssa.Extract)
-	if !isEx {
-		return nil, nil, "", 0, false
-	}
-	cl, isCall := ex.Tuple.(*ssa.Call)
-	if !isCall {
-		return nil, nil, "", 0, false
-	}
-	o := calleeObj(cl)
-	if o == nil || o.Pkg() == nil || o.Pkg().Path() != c06ClassAdPkg {
-		return nil, nil, "", 0, false
-	}
-	switch o.Name() {
-	case "EvaluateAttrString", "EvaluateAttrBool", "EvaluateAttrInt", "EvaluateAttrNumber", "EvaluateAttrReal":
-	default:
-		return nil, nil, "", 0, false
-	}
-	args := callArgs(cl)
-	if len(args) < 2 {
-		return nil, nil, "", 0, false
-	}
-	n, isC := constString(args[1])
-	if !isC {
-		return nil, nil, "", 0, false
-	}
-	return cl, args[0], n, ex.Index, true
-}
-
-type c06SetCall struct {
-	Call ssa.CallInstruction
-	Ad   ssa.Value
-	Name string // "" when not constant
-	Val  ssa.Value
-}
-
-// c06AdSets lists ad.Set(name, value) calls in fn (any ClassAd).
-func c06AdSets(fn *ssa.Function) []c06SetCall {
-	var out []c06SetCall
-	allInstrs(fn, func(_ *ssa.BasicBlock, _ int, in ssa.Instruction) {
-		cl, ok := in.(ssa.CallInstruction)
-		if !ok {
-			return
-		}
-		o := calleeObj(cl)
-		if o == nil || o.Pkg() == nil || o.Pkg().Path() != c06ClassAdPkg || o.Name() != "Set" {
-			return
-		}
-		args := callArgs(cl)
-		if len(args) < 3 {
-			return
-		}
-		n, _ := constString(args[1])
-		out = append(out, c06SetCall{cl, args[0], n, args[2]})
-	})
-	return out
-}
-
-// c06SameValue: a and b denote the same object within fn (identity through conversions, cells and phis).
-func c06SameValue(fn *ssa.Function, a, b ssa.Value) bool {
-	if a == b {
-		return true
-	}
-	oa, ob := origins(fn, a), origins(fn, b)
-	if len(oa) == 0 || len(ob) == 0 {
-		return false
-	}
-	set := map[ssa.Value]bool{}
-	for _, x := range oa {
-		set[x] = true
-	}
-	for _, y := range ob {
-		if !set[y] {
-			return false
-		}
-	}
-	return len(oa) == len(ob)
-}
-
-// c06IsMethodCall: v is (an Extract of) a call to method obj; returns the call.
+// c06CallOf: v is (an Extract of) a call to one of objs; returns the call.
 func c06CallOf(v ssa.Value, objs ...types.Object) *ssa.Call {
 	call, _ := originCall(v)
 	cl, ok := call.(*ssa.Call)
@@ -608,20 +703,6 @@ func c06CallOf(v ssa.Value, objs ...types.Object) *ssa.Call {
 		}
 	}
 	return nil
-}
-
-// c06AllOrigins: every leaf origin of v satisfies pred (and there is at least one).
-func c06AllOrigins(fn *ssa.Function, v ssa.Value, pred func(ssa.Value) bool) bool {
-	os := origins(fn, v)
-	if len(os) == 0 {
-		return false
-	}
-	for _, o := range os {
-		if !pred(o) {
-			return false
-		}
-	}
-	return true
 }
 
 // c06FieldLoadOf: v is a load of field f; returns the base pointer.
@@ -646,50 +727,1409 @@ func c06StoresToField(fn *ssa.Function, f *types.Var) []*ssa.Store {
 	return out
 }
 
-// c06StringCompares lists branches comparing v (or an alias) with a string constant:
-// eqEdge is the edge on which v == constant.
-type c06StrCmp struct {
-	Const   string
-	EqEdge  Edge
-	NeqEdge Edge
-	Blk     *ssa.BasicBlock
+// ---------------------------------------------------------------------------
+// virtual inlining ("views")
+//
+// A rule that looks for a test / store / call "in function f" must also find it when a contributor has moved
+// it into a helper (a boolean predicate, an error-returning step, a value-producing helper, a method that
+// performs the store), has inlined an existing helper, or has materialised a condition in a local boolean.
+// A c06View is the tree of function instances ("frames") obtained by expanding, from a root function, every
+// static call to a function of the root's package (methods and closures included; never recursive; depth
+// <= c06MaxDepth; the rule's own anchors are never expanded: a rule that asks for "a call of X" sees the call).
+//   - values are (value, frame) pairs (c06FV): Origins follows parameters to the call's arguments, captured
+//     variables to the enclosing function's cells and call results into the callee's returned expressions;
+//   - effects are enumerated over all frames (Frames / Calls / Sets ...);
+//   - path facts are described once (c06Fact: which condition, instruction or call outcome establishes the
+//     fact) and lifted through helpers by summaries: the true (false) edge of "if helper(args)" establishes
+//     the fact when every path inside the helper to a return that may yield true (false) passes it, the
+//     nil-error (error) edge of an error-returning helper likewise, a call to a helper that passes the fact
+//     on every path is itself a cut instruction; a branch on a local boolean phi is resolved per incoming edge.
+
+const (
+	c06MaxDepth  = 4
+	c06MaxFrames = 600
+)
+
+// c06Frame is one function instance of the virtual inlining tree.
+type c06Frame struct {
+	Fn     *ssa.Function
+	Call   ssa.CallInstruction // call site in Parent.Fn (nil for the root)
+	Parent *c06Frame
+	Depth  int
+	view   *c06View
+	kids   map[ssa.CallInstruction]*c06Frame
 }
 
-func c06StringCompares(fn *ssa.Function, v ssa.Value) []c06StrCmp {
-	al := aliases(fn, v)
-	var out []c06StrCmp
-	for _, b := range fn.Blocks {
-		ifi := blockIf(b)
-		if ifi == nil {
-			continue
+// c06FV is a value in a frame.
+type c06FV struct {
+	V ssa.Value
+	F *c06Frame
+}
+
+// c06Site is a call instruction in a frame.
+type c06Site struct {
+	Call ssa.CallInstruction
+	F    *c06Frame
+}
+
+func (s c06Site) Arg(i int) c06FV {
+	a := callArgs(s.Call)
+	if i < 0 || i >= len(a) {
+		return c06FV{}
+	}
+	return c06FV{a[i], s.F}
+}
+func (s c06Site) NArgs() int { return len(callArgs(s.Call)) }
+func (s c06Site) Pos() token.Pos {
+	if s.Call == nil {
+		return token.NoPos
+	}
+	return s.Call.Pos()
+}
+
+type c06SumKey struct {
+	fr   *c06Frame
+	fact *c06Fact
+	mode int
+	idx  int
+}
+
+type c06View struct {
+	c       *Ctx
+	Root    *c06Frame
+	stop    map[*ssa.Function]bool
+	n       int
+	frames  []*c06Frame
+	pruners map[*c06Frame]*c06Pruner
+	cuts    map[c06SumKey]*Cuts
+	sums    map[c06SumKey]bool
+}
+
+// c06NewView builds the view rooted at root; calls to the functions in stop are never expanded.
+func (c *Ctx) c06NewView(root *ssa.Function, stop ...*ssa.Function) *c06View {
+	vw := &c06View{c: c, stop: map[*ssa.Function]bool{}, pruners: map[*c06Frame]*c06Pruner{}, cuts: map[c06SumKey]*Cuts{}, sums: map[c06SumKey]bool{}}
+	for _, s := range stop {
+		if s != nil {
+			vw.stop[s] = true
 		}
-		a := condAtom(ifi.Cond)
-		if a.Op != token.EQL && a.Op != token.NEQ {
-			continue
+	}
+	vw.Root = &c06Frame{Fn: root, view: vw, kids: map[ssa.CallInstruction]*c06Frame{}}
+	vw.n = 1
+	return vw
+}
+
+func (vw *c06View) fv(v ssa.Value) c06FV { return c06FV{v, vw.Root} }
+
+// pruner returns the path-search state of frame fr: the function's flag variables plus the boolean parameters
+// whose value is a constant at this frame's call site ("lookup(id, false)": the branch on the flag is decided).
+func (vw *c06View) pruner(fr *c06Frame) *c06Pruner {
+	p := vw.pruners[fr]
+	if p != nil {
+		return p
+	}
+	p = c06NewPruner(fr.Fn)
+	vw.pruners[fr] = p
+	if fr.Parent != nil && fr.Call != nil {
+		args := fr.Call.Common().Args
+		for i, par := range fr.Fn.Params {
+			if i < len(args) && c06IsBoolType(par.Type()) {
+				if b, ok := vw.ConstBool(c06FV{args[i], fr.Parent}); ok {
+					if p.paramConst == nil {
+						p.paramConst = map[ssa.Value]bool{}
+					}
+					p.paramConst[par] = b
+				}
+			}
 		}
-		var other ssa.Value
-		if al[a.X] {
-			other = a.Y
-		} else if al[a.Y] {
-			other = a.X
-		} else {
-			continue
+	}
+	return p
+}
+
+// expandable: a call from fr to g is looked into.
+func (fr *c06Frame) expandable(g *ssa.Function) bool {
+	if g == nil || g.Blocks == nil || fr.Depth >= c06MaxDepth || fr.view.stop[g] {
+		return false
+	}
+	if pk := fnPkg(g); pk == nil || pk != fnPkg(fr.view.Root.Fn) {
+		return false
+	}
+	for f := fr; f != nil; f = f.Parent {
+		if f.Fn == g {
+			return false
 		}
-		s, ok := constString(other)
-		if !ok {
-			continue
+	}
+	return true
+}
+
+// child returns the frame of the callee of call (nil when the call is not expanded).
+func (fr *c06Frame) child(call ssa.CallInstruction) *c06Frame {
+	if call == nil {
+		return nil
+	}
+	if k, ok := fr.kids[call]; ok {
+		return k
+	}
+	if _, isGo := call.(*ssa.Go); isGo {
+		return nil
+	}
+	g := calleeFn(call)
+	if !fr.expandable(g) || fr.view.n >= c06MaxFrames {
+		return nil
+	}
+	k := &c06Frame{Fn: g, Call: call, Parent: fr, Depth: fr.Depth + 1, view: fr.view, kids: map[ssa.CallInstruction]*c06Frame{}}
+	fr.kids[call] = k
+	fr.view.n++
+	return k
+}
+
+// Frames lists the root and every frame reachable from it (breadth first).
+func (vw *c06View) Frames() []*c06Frame {
+	if vw.frames != nil {
+		return vw.frames
+	}
+	out := []*c06Frame{vw.Root}
+	for i := 0; i < len(out); i++ {
+		fr := out[i]
+		allInstrs(fr.Fn, func(_ *ssa.BasicBlock, _ int, in ssa.Instruction) {
+			if cl, ok := in.(ssa.CallInstruction); ok {
+				if k := fr.child(cl); k != nil {
+					out = append(out, k)
+				}
+			}
+		})
+	}
+	vw.frames = out
+	return out
+}
+
+// EachInstr visits every instruction of every frame.
+func (vw *c06View) EachInstr(f func(fr *c06Frame, in ssa.Instruction)) {
+	for _, fr := range vw.Frames() {
+		fr := fr
+		allInstrs(fr.Fn, func(_ *ssa.BasicBlock, _ int, in ssa.Instruction) { f(fr, in) })
+	}
+}
+
+// Calls lists the calls to any of objs in every frame.
+func (vw *c06View) Calls(objs ...types.Object) []c06Site {
+	var out []c06Site
+	vw.EachInstr(func(fr *c06Frame, in ssa.Instruction) {
+		if cl, ok := isCallTo(in, objs...); ok {
+			out = append(out, c06Site{cl, fr})
 		}
-		eqOnTrue := a.Op == token.EQL
-		if a.Neg {
-			eqOnTrue = !eqOnTrue
-		}
-		cm := c06StrCmp{Const: s, Blk: b}
-		if eqOnTrue {
-			cm.EqEdge, cm.NeqEdge = Edge{b, 0}, Edge{b, 1}
-		} else {
-			cm.EqEdge, cm.NeqEdge = Edge{b, 1}, Edge{b, 0}
-		}
-		out = append(out, cm)
+	})
+	return out
+}
+
+// CallsIn lists the calls to any of objs in frame fr only.
+func (fr *c06Frame) CallsIn(objs ...types.Object) []c06Site {
+	var out []c06Site
+	for _, cl := range callsIn(fr.Fn, objs...) {
+		out = append(out, c06Site{cl, fr})
 	}
 	return out
+}
+
+func c06ParamIndex(fn *ssa.Function, p *ssa.Parameter) int {
+	for i, q := range fn.Params {
+		if q == p {
+			return i
+		}
+	}
+	return -1
+}
+
+// closureBinding: the value bound to free variable fv of the closure running in frame fr, as a value of
+// the frame that called it (the closure must have been created in that frame's function).
+func (fr *c06Frame) closureBinding(fv *ssa.FreeVar) (c06FV, bool) {
+	if fr.Parent == nil || fr.Call == nil {
+		return c06FV{}, false
+	}
+	mc, ok := fr.Call.Common().Value.(*ssa.MakeClosure)
+	if !ok || mc.Fn != ssa.Value(fr.Fn) {
+		return c06FV{}, false
+	}
+	for i, x := range fr.Fn.FreeVars {
+		if x == fv && i < len(mc.Bindings) {
+			return c06FV{mc.Bindings[i], fr.Parent}, true
+		}
+	}
+	return c06FV{}, false
+}
+
+// Origins returns the leaf values fv may carry, across frames: parameters are followed to the arguments of
+// the frame's call site, loads of captured variables to the stores into the enclosing function's cell, and
+// results of expanded calls to the callee's returned expressions.
+func (vw *c06View) Origins(fv c06FV) []c06FV {
+	seen := map[c06FV]bool{}
+	var out []c06FV
+	var walk func(x c06FV, d int)
+	loadOf := func(addr c06FV, d int) bool { return false }
+	loadOf = func(addr c06FV, d int) bool {
+		switch a := addr.V.(type) {
+		case *ssa.Alloc:
+			n := 0
+			for _, r := range *a.Referrers() {
+				if st, ok := r.(*ssa.Store); ok && st.Addr == ssa.Value(a) {
+					n++
+					walk(c06FV{st.Val, addr.F}, d+1)
+				}
+			}
+			return n > 0
+		case *ssa.FreeVar:
+			if b, ok := addr.F.closureBinding(a); ok {
+				return loadOf(b, d+1)
+			}
+		}
+		return false
+	}
+	walk = func(x c06FV, d int) {
+		if x.V == nil || x.F == nil || seen[x] {
+			return
+		}
+		seen[x] = true
+		if d > 80 {
+			out = append(out, x)
+			return
+		}
+		for _, l := range origins(x.F.Fn, x.V) {
+			lf := c06FV{l, x.F}
+			if l != x.V && seen[lf] {
+				continue
+			}
+			seen[lf] = true
+			switch y := l.(type) {
+			case *ssa.Parameter:
+				if x.F.Parent != nil {
+					if i := c06ParamIndex(x.F.Fn, y); i >= 0 && i < len(x.F.Call.Common().Args) {
+						walk(c06FV{x.F.Call.Common().Args[i], x.F.Parent}, d+1)
+						continue
+					}
+				}
+			case *ssa.UnOp:
+				if y.Op == token.MUL {
+					if fvar, ok := y.X.(*ssa.FreeVar); ok {
+						if loadOf(c06FV{fvar, x.F}, d) {
+							continue
+						}
+					}
+				}
+			case *ssa.Call, *ssa.Extract:
+				call, idx := originCall(l)
+				if call != nil {
+					if k := x.F.child(call); k != nil {
+						n := 0
+						for _, ret := range vw.valueReturns(k.Fn, idx) {
+							n++
+							walk(c06FV{ret.Results[idx], k}, d+1)
+						}
+						if n > 0 {
+							continue
+						}
+					}
+				}
+			}
+			out = append(out, lf)
+		}
+	}
+	walk(fv, 0)
+	return out
+}
+
+// valueReturns: the returns of g whose result #idx is a value the caller uses: all live returns, minus (Go's
+// conventions) the error exits of a (T, error) function and the "not found" exits (last result the constant
+// false) of a (T, bool) function when idx is one of the other results - those hand back zero values that the
+// caller never looks at.
+func (vw *c06View) valueReturns(g *ssa.Function, idx int) []*ssa.Return {
+	res := g.Signature.Results()
+	ei := c06ErrIndex(g.Signature)
+	errOnly := map[*ssa.Return]bool{}
+	if ei >= 0 && ei != idx {
+		cls := map[*ssa.Return][]string{}
+		for _, r := range vw.c.returnsOf(g) {
+			cls[r.Ret] = append(cls[r.Ret], r.Class)
+		}
+		for ret, cs := range cls {
+			all := true
+			for _, c := range cs {
+				if c != "error" {
+					all = false
+				}
+			}
+			errOnly[ret] = all
+		}
+	}
+	last := res.Len() - 1
+	commaOk := last >= 1 && idx != last && c06IsBoolType(res.At(last).Type())
+	var out []*ssa.Return
+	for _, b := range g.Blocks {
+		if len(b.Instrs) == 0 {
+			continue
+		}
+		ret, ok := b.Instrs[len(b.Instrs)-1].(*ssa.Return)
+		if !ok || idx >= len(ret.Results) || !reachableFromEntry(g, b) || errOnly[ret] {
+			continue
+		}
+		if commaOk {
+			if v, isC := constBool(c06RetVal(ret, last)); isC && !v {
+				continue
+			}
+		}
+		out = append(out, ret)
+	}
+	return out
+}
+
+// AllOrigins: every leaf origin of fv satisfies pred (and there is at least one).
+func (vw *c06View) AllOrigins(fv c06FV, pred func(c06FV) bool) bool {
+	os := vw.Origins(fv)
+	if len(os) == 0 {
+		return false
+	}
+	for _, o := range os {
+		if !pred(o) {
+			return false
+		}
+	}
+	return true
+}
+
+// Same: a and b denote the same object (equal sets of leaf origins).
+func (vw *c06View) Same(a, b c06FV) bool {
+	if a == b {
+		return a.V != nil
+	}
+	oa, ob := vw.Origins(a), vw.Origins(b)
+	if len(oa) == 0 || len(ob) == 0 {
+		return false
+	}
+	sa, sb := map[c06FV]bool{}, map[c06FV]bool{}
+	for _, x := range oa {
+		sa[x] = true
+	}
+	for _, y := range ob {
+		sb[y] = true
+		if !sa[y] {
+			return false
+		}
+	}
+	return len(sa) == len(sb)
+}
+
+// IsRootParam: every origin of fv is parameter #idx of the view's root function.
+func (vw *c06View) IsRootParam(fv c06FV, idx int) bool {
+	if idx >= len(vw.Root.Fn.Params) {
+		return false
+	}
+	return vw.AllOrigins(fv, func(o c06FV) bool { return o.F == vw.Root && o.V == ssa.Value(vw.Root.Fn.Params[idx]) })
+}
+
+func (vw *c06View) ConstString(fv c06FV) (string, bool) {
+	if s, ok := constString(fv.V); ok {
+		return s, true
+	}
+	res, n := "", 0
+	for _, o := range vw.Origins(fv) {
+		s, ok := constString(o.V)
+		if !ok || (n > 0 && s != res) {
+			return "", false
+		}
+		res = s
+		n++
+	}
+	return res, n > 0
+}
+
+func (vw *c06View) ConstBool(fv c06FV) (bool, bool) {
+	if b, ok := constBool(fv.V); ok {
+		return b, true
+	}
+	res, n := false, 0
+	for _, o := range vw.Origins(fv) {
+		b, ok := constBool(o.V)
+		if !ok || (n > 0 && b != res) {
+			return false, false
+		}
+		res = b
+		n++
+	}
+	return res, n > 0
+}
+
+func (vw *c06View) ConstInt(fv c06FV) (int64, bool) {
+	if i, ok := constInt(fv.V); ok {
+		return i, true
+	}
+	var res int64
+	n := 0
+	for _, o := range vw.Origins(fv) {
+		i, ok := constInt(o.V)
+		if !ok || (n > 0 && i != res) {
+			return 0, false
+		}
+		res = i
+		n++
+	}
+	return res, n > 0
+}
+
+// CallOf: every origin of fv is (a result of) a call to one of objs; returns the first such call.
+func (vw *c06View) CallOf(fv c06FV, objs ...types.Object) (c06Site, bool) {
+	var first c06Site
+	ok := vw.AllOrigins(fv, func(o c06FV) bool {
+		cl := c06CallOf(o.V, objs...)
+		if cl == nil {
+			return false
+		}
+		if first.Call == nil {
+			first = c06Site{cl, o.F}
+		}
+		return true
+	})
+	return first, ok && first.Call != nil
+}
+
+// c06SiteOf: leaf o is (a result of) a call to one of objs.
+func c06SiteOf(o c06FV, objs ...types.Object) (c06Site, bool) {
+	if cl := c06CallOf(o.V, objs...); cl != nil {
+		return c06Site{cl, o.F}, true
+	}
+	return c06Site{}, false
+}
+
+// FieldLoad: leaf o is a load of field f; returns the base.
+func c06XFieldLoad(o c06FV, f *types.Var) (c06FV, bool) {
+	if base, ok := c06FieldLoadOf(o.V, f); ok {
+		return c06FV{base, o.F}, true
+	}
+	return c06FV{}, false
+}
+
+// AttrLookup: leaf o is result #idx of ad.EvaluateAttrX(name) with a name that is constant across frames.
+func (vw *c06View) AttrLookup(o c06FV) (site c06Site, ad c06FV, name string, idx int, ok bool) {
+	ex, isEx := o.V.(*ssa.Extract)
+	if !isEx {
+		return
+	}
+	cl, isCall := ex.Tuple.(*ssa.Call)
+	if !isCall {
+		return
+	}
+	obj := calleeObj(cl)
+	if obj == nil || obj.Pkg() == nil || obj.Pkg().Path() != c06ClassAdPkg {
+		return
+	}
+	switch obj.Name() {
+	case "EvaluateAttrString", "EvaluateAttrBool", "EvaluateAttrInt", "EvaluateAttrNumber", "EvaluateAttrReal":
+	default:
+		return
+	}
+	args := callArgs(cl)
+	if len(args) < 2 {
+		return
+	}
+	n, isC := vw.ConstString(c06FV{args[1], o.F})
+	if !isC {
+		return
+	}
+	return c06Site{cl, o.F}, c06FV{args[0], o.F}, n, ex.Index, true
+}
+
+// c06XSet is an ad.Set(name, value) call in some frame.
+type c06XSet struct {
+	Site c06Site
+	Ad   c06FV
+	Name string // "" when not constant
+	Val  c06FV
+}
+
+// Sets lists the ClassAd Set calls of every frame.
+func (vw *c06View) Sets() []c06XSet {
+	var out []c06XSet
+	vw.EachInstr(func(fr *c06Frame, in ssa.Instruction) {
+		cl, ok := in.(ssa.CallInstruction)
+		if !ok {
+			return
+		}
+		o := calleeObj(cl)
+		if o == nil || o.Pkg() == nil || o.Pkg().Path() != c06ClassAdPkg || o.Name() != "Set" {
+			return
+		}
+		args := callArgs(cl)
+		if len(args) < 3 {
+			return
+		}
+		n, _ := vw.ConstString(c06FV{args[1], fr})
+		out = append(out, c06XSet{c06Site{cl, fr}, c06FV{args[0], fr}, n, c06FV{args[2], fr}})
+	})
+	return out
+}
+
+// StoresToField lists the stores to field f in every frame.
+type c06XStore struct {
+	St *ssa.Store
+	F  *c06Frame
+}
+
+func (s c06XStore) Val() c06FV { return c06FV{s.St.Val, s.F} }
+func (s c06XStore) Base() c06FV {
+	return c06FV{s.St.Addr.(*ssa.FieldAddr).X, s.F}
+}
+
+func (vw *c06View) StoresToField(f *types.Var) []c06XStore {
+	var out []c06XStore
+	for _, fr := range vw.Frames() {
+		for _, st := range c06StoresToField(fr.Fn, f) {
+			out = append(out, c06XStore{st, fr})
+		}
+	}
+	return out
+}
+
+// MustDepend is mustDepend across frames: a parameter of a helper depends on what the call site passes.
+func (vw *c06View) MustDepend(fv c06FV, pred func(c06FV) bool) bool {
+	return vw.mustDepend(fv, pred, 0)
+}
+
+func (vw *c06View) mustDepend(fv c06FV, pred func(c06FV) bool, d int) bool {
+	if d > 2*c06MaxDepth || fv.V == nil {
+		return false
+	}
+	return c06MustDepend(fv.F.Fn, fv.V, func(x ssa.Value) bool {
+		if pred(c06FV{x, fv.F}) {
+			return true
+		}
+		switch y := x.(type) {
+		case *ssa.Parameter:
+			if fv.F.Parent != nil {
+				if i := c06ParamIndex(fv.F.Fn, y); i >= 0 && i < len(fv.F.Call.Common().Args) {
+					return vw.mustDepend(c06FV{fv.F.Call.Common().Args[i], fv.F.Parent}, pred, d+1)
+				}
+			}
+		case *ssa.FreeVar:
+			if b, ok := fv.F.closureBinding(y); ok {
+				return vw.mustDepend(b, pred, d+1)
+			}
+		}
+		return false
+	})
+}
+
+// ---------------------------------------------------------------------------
+// facts
+
+// c06Fact says what establishes a path fact inside one function instance; the view lifts it through helpers.
+type c06Fact struct {
+	Name string
+	// Cond: does the negation-free condition at (at.Op==ILLEGAL: the plain boolean at.X) being true / false establish the fact?
+	Cond func(fr *c06Frame, at Atom) (onTrue, onFalse bool)
+	// Instr: executing this instruction establishes the fact.
+	Instr func(fr *c06Frame, in ssa.Instruction) bool
+	// CallOK / CallFail: the nil-error / non-nil-error outcome of this call establishes the fact
+	// (for a call without error result CallOK means the call itself).
+	CallOK, CallFail func(fr *c06Frame, call ssa.CallInstruction) bool
+	// Edges: further edges of fr.Fn that establish the fact.
+	Edges func(fr *c06Frame) []Edge
+}
+
+// c06AnyOf is the disjunction of facts.
+func c06AnyOf(name string, fs ...*c06Fact) *c06Fact {
+	return &c06Fact{
+		Name: name,
+		Cond: func(fr *c06Frame, at Atom) (t, f bool) {
+			for _, x := range fs {
+				if x.Cond != nil {
+					a, b := x.Cond(fr, at)
+					t, f = t || a, f || b
+				}
+			}
+			return
+		},
+		Instr: func(fr *c06Frame, in ssa.Instruction) bool {
+			for _, x := range fs {
+				if x.Instr != nil && x.Instr(fr, in) {
+					return true
+				}
+			}
+			return false
+		},
+		CallOK: func(fr *c06Frame, cl ssa.CallInstruction) bool {
+			for _, x := range fs {
+				if x.CallOK != nil && x.CallOK(fr, cl) {
+					return true
+				}
+			}
+			return false
+		},
+		CallFail: func(fr *c06Frame, cl ssa.CallInstruction) bool {
+			for _, x := range fs {
+				if x.CallFail != nil && x.CallFail(fr, cl) {
+					return true
+				}
+			}
+			return false
+		},
+		Edges: func(fr *c06Frame) []Edge {
+			var out []Edge
+			for _, x := range fs {
+				if x.Edges != nil {
+					out = append(out, x.Edges(fr)...)
+				}
+			}
+			return out
+		},
+	}
+}
+
+const (
+	c06ModeAny = iota
+	c06ModeErrNil
+	c06ModeErrNonNil
+	c06ModeTrue
+	c06ModeFalse
+)
+
+func c06IsBoolType(t types.Type) bool {
+	b, ok := t.Underlying().(*types.Basic)
+	return ok && b.Kind() == types.Bool
+}
+
+func c06ErrIndex(sig *types.Signature) int {
+	for i := sig.Results().Len() - 1; i >= 0; i-- {
+		if isErrorType(sig.Results().At(i).Type()) {
+			return i
+		}
+	}
+	return -1
+}
+
+// evalValue: does the boolean v being true / false establish the fact (at the place where it is evaluated)?
+func (vw *c06View) evalValue(fr *c06Frame, f *c06Fact, v ssa.Value, d int) (onTrue, onFalse bool) {
+	if v == nil || d > 8 {
+		return false, false
+	}
+	at := condAtom(v)
+	t, fl := vw.evalAtom(fr, f, at, d)
+	if at.Neg {
+		t, fl = fl, t
+	}
+	return t, fl
+}
+
+func (vw *c06View) evalAtom(fr *c06Frame, f *c06Fact, at Atom, d int) (onTrue, onFalse bool) {
+	if f.Cond != nil {
+		if t, fl := f.Cond(fr, at); t || fl {
+			return t, fl
+		}
+	}
+	if at.Op != token.ILLEGAL || at.X == nil {
+		return false, false
+	}
+	switch x := at.X.(type) {
+	case *ssa.Call, *ssa.Extract:
+		call, idx := originCall(x)
+		if call == nil {
+			return false, false
+		}
+		k := fr.child(call)
+		if k == nil {
+			return false, false
+		}
+		res := k.Fn.Signature.Results()
+		if idx >= res.Len() || !c06IsBoolType(res.At(idx).Type()) {
+			return false, false
+		}
+		return vw.Summary(k, f, c06ModeTrue, idx), vw.Summary(k, f, c06ModeFalse, idx)
+	case *ssa.Phi:
+		// value-level: every incoming value that can be true (false) establishes the fact when it is
+		t, fl := true, true
+		for _, e := range x.Edges {
+			if cv, isC := constBool(e); isC {
+				if cv {
+					t = false
+				} else {
+					fl = false
+				}
+				continue
+			}
+			a, b := vw.evalValue(fr, f, e, d+1)
+			t, fl = t && a, fl && b
+		}
+		return t, fl
+	}
+	return false, false
+}
+
+// Cuts: the edges and instructions of fr.Fn that establish fact f, directly or through helpers.
+func (vw *c06View) Cuts(fr *c06Frame, f *c06Fact) *Cuts {
+	key := c06SumKey{fr: fr, fact: f}
+	if c, ok := vw.cuts[key]; ok {
+		return c
+	}
+	cuts := newCuts()
+	vw.cuts[key] = cuts
+	fn := fr.Fn
+	if f.Edges != nil {
+		cuts.AddEdges(f.Edges(fr)...)
+	}
+	allInstrs(fn, func(_ *ssa.BasicBlock, _ int, in ssa.Instruction) {
+		if f.Instr != nil && f.Instr(fr, in) {
+			cuts.AddInstrs(in)
+			return
+		}
+		call, ok := in.(ssa.CallInstruction)
+		if !ok {
+			return
+		}
+		if _, isGo := in.(*ssa.Go); isGo {
+			return
+		}
+		_, isDefer := in.(*ssa.Defer)
+		okHit := f.CallOK != nil && f.CallOK(fr, call)
+		failHit := f.CallFail != nil && f.CallFail(fr, call)
+		if okHit || failHit {
+			v := call.Value()
+			if v == nil || len(errResults(v)) == 0 {
+				if okHit {
+					cuts.AddInstrs(in)
+				}
+				return
+			}
+			succ, fail, checked := callErrEdges(fn, v)
+			if okHit && failHit && !checked {
+				cuts.AddInstrs(in)
+				return
+			}
+			if okHit {
+				cuts.AddEdges(succ...)
+			}
+			if failHit {
+				cuts.AddEdges(fail...)
+			}
+			return
+		}
+		k := fr.child(call)
+		if k == nil {
+			return
+		}
+		if vw.Summary(k, f, c06ModeAny, 0) {
+			cuts.AddInstrs(in)
+			return
+		}
+		if isDefer {
+			return
+		}
+		v := call.Value()
+		if v == nil {
+			return
+		}
+		if c06ErrIndex(k.Fn.Signature) >= 0 {
+			succ, fail, checked := callErrEdges(fn, v)
+			if checked {
+				if vw.Summary(k, f, c06ModeErrNil, 0) {
+					cuts.AddEdges(succ...)
+				}
+				if vw.Summary(k, f, c06ModeErrNonNil, 0) {
+					cuts.AddEdges(fail...)
+				}
+			}
+		}
+	})
+	for _, b := range fn.Blocks {
+		ifi := blockIf(b)
+		if ifi == nil || len(b.Succs) != 2 {
+			continue
+		}
+		at := condAtom(ifi.Cond)
+		te, fe := Edge{b, 0}, Edge{b, 1}
+		if at.Neg {
+			te, fe = fe, te
+		}
+		// a local boolean merged in this very block: per incoming edge
+		if phi, ok := at.X.(*ssa.Phi); ok && at.Op == token.ILLEGAL && phi.Block() == b {
+			if f.Cond != nil {
+				if t, fl := f.Cond(fr, at); t || fl {
+					if t {
+						cuts.AddEdges(te)
+					}
+					if fl {
+						cuts.AddEdges(fe)
+					}
+					continue
+				}
+			}
+			for i, e := range phi.Edges {
+				if _, isC := constBool(e); isC || i >= len(b.Preds) {
+					continue // the path search prunes the infeasible successor itself
+				}
+				t, fl := vw.evalValue(fr, f, e, 0)
+				if t {
+					cuts.AddVia(b.Preds[i], te)
+				}
+				if fl {
+					cuts.AddVia(b.Preds[i], fe)
+				}
+			}
+			continue
+		}
+		t, fl := vw.evalAtom(fr, f, at, 0)
+		if t {
+			cuts.AddEdges(te)
+		}
+		if fl {
+			cuts.AddEdges(fe)
+		}
+		// a local boolean merged in another block: per operand, for paths that remember which one was taken
+		if phi, ok := at.X.(*ssa.Phi); ok && at.Op == token.ILLEGAL && phi.Block() != b && !(t && fl) {
+			pr := vw.pruner(fr)
+			if _, tracked := pr.trackIdx[phi]; tracked {
+				for i, e := range phi.Edges {
+					if _, isC := constBool(e); isC {
+						continue
+					}
+					et, ef := vw.evalValue(fr, f, e, 0)
+					if et && !t {
+						pr.AddPhiCut(cuts, c06PhiCut{phi, i, b, te.Succ})
+					}
+					if ef && !fl {
+						pr.AddPhiCut(cuts, c06PhiCut{phi, i, b, fe.Succ})
+					}
+				}
+			}
+		}
+	}
+	return cuts
+}
+
+// CutCount: the number of edges / instructions of fr.Fn that establish f.
+func (vw *c06View) CutCount(fr *c06Frame, f *c06Fact) int {
+	cuts := vw.Cuts(fr, f)
+	return len(cuts.Edges) + len(cuts.Instrs) + len(cuts.Via) + len(vw.pruner(fr).phiCuts[cuts])
+}
+
+// retEstablishes: the return rp hands back, as its error, the error of a call whose nil (non-nil) outcome
+// establishes the fact ("return helper(...)"): reaching it with a nil (non-nil) error establishes the fact.
+func (vw *c06View) retEstablishes(fr *c06Frame, f *c06Fact, rp RetPoint, nilErr bool) bool {
+	ev := c06ErrOperand(fr.Fn, rp.Ret)
+	if ev == nil {
+		return false
+	}
+	if phi, ok := ev.(*ssa.Phi); ok && rp.Pred != nil && phi.Block() == rp.Ret.Block() {
+		for i, p := range phi.Block().Preds {
+			if p == rp.Pred {
+				ev = phi.Edges[i]
+			}
+		}
+	}
+	call, idx := originCall(ev)
+	if call == nil {
+		return false
+	}
+	if tup, ok := call.Value().Type().(*types.Tuple); ok {
+		if idx >= tup.Len() || !isErrorType(tup.At(idx).Type()) {
+			return false
+		}
+	} else if !isErrorType(call.Value().Type()) {
+		return false
+	}
+	if nilErr && f.CallOK != nil && f.CallOK(fr, call) {
+		return true
+	}
+	if !nilErr && f.CallFail != nil && f.CallFail(fr, call) {
+		return true
+	}
+	if k := fr.child(call); k != nil {
+		if nilErr {
+			return vw.Summary(k, f, c06ModeErrNil, 0)
+		}
+		return vw.Summary(k, f, c06ModeErrNonNil, 0)
+	}
+	return false
+}
+
+// Summary: every path through fr.Fn to a return of the given kind passes the fact.
+// Modes: any return; returns whose error may be nil / may be non-nil; returns whose result #idx may be true / false.
+func (vw *c06View) Summary(fr *c06Frame, f *c06Fact, mode, idx int) bool {
+	key := c06SumKey{fr, f, mode + 1, idx}
+	if r, ok := vw.sums[key]; ok {
+		return r
+	}
+	vw.sums[key] = false
+	res := vw.summary(fr, f, mode, idx)
+	vw.sums[key] = res
+	return res
+}
+
+func (vw *c06View) summary(fr *c06Frame, f *c06Fact, mode, idx int) bool {
+	fn := fr.Fn
+	cuts := vw.Cuts(fr, f)
+	pr := vw.pruner(fr)
+	var targets []Target
+	switch mode {
+	case c06ModeAny:
+		for _, r := range vw.c.c06LiveReturns(fn) {
+			targets = append(targets, r.Target())
+		}
+	case c06ModeErrNil:
+		for _, r := range vw.c.c06SuccessTargets(fn) {
+			if !reachableFromEntry(fn, r.Ret.Block()) || vw.retEstablishes(fr, f, r, true) {
+				continue
+			}
+			targets = append(targets, r.Target())
+		}
+	case c06ModeErrNonNil:
+		for _, r := range vw.c.c06LiveReturns(fn) {
+			if r.Class == "success" || vw.retEstablishes(fr, f, r, false) {
+				continue
+			}
+			targets = append(targets, r.Target())
+		}
+	case c06ModeTrue, c06ModeFalse:
+		want := mode == c06ModeTrue
+		for _, b := range fn.Blocks {
+			if len(b.Instrs) == 0 || !reachableFromEntry(fn, b) {
+				continue
+			}
+			ret, ok := b.Instrs[len(b.Instrs)-1].(*ssa.Return)
+			if !ok || idx >= len(ret.Results) {
+				continue
+			}
+			type inc struct {
+				v    ssa.Value
+				pred *ssa.BasicBlock
+			}
+			var incs []inc
+			o := c06RetVal(ret, idx)
+			if phi, ok := o.(*ssa.Phi); ok && phi.Block() == b {
+				for i, e := range phi.Edges {
+					incs = append(incs, inc{e, b.Preds[i]})
+				}
+			} else {
+				incs = append(incs, inc{o, nil})
+			}
+			for _, x := range incs {
+				if cv, isC := constBool(x.v); isC {
+					if cv == want {
+						targets = append(targets, Target{Instr: ret, Pred: x.pred})
+					}
+					continue
+				}
+				t, fl := vw.evalValue(fr, f, x.v, 0)
+				if (want && t) || (!want && fl) {
+					continue
+				}
+				targets = append(targets, Target{Instr: ret, Pred: x.pred})
+			}
+		}
+	}
+	for _, tg := range targets {
+		if c06FindPath(pr, entryPoint(fn), tg, cuts) != nil {
+			return false
+		}
+	}
+	return true
+}
+
+// PathToReturns: a path from fr.Fn's entry to one of the returns that passes nothing establishing f
+// (nil if none). nilErr/nonNil select how "return helper(...)" is read (0: not at all, 1: the returns are
+// success returns, 2: error returns).
+func (vw *c06View) PathToReturns(fr *c06Frame, targets []RetPoint, f *c06Fact, errKind int) []*ssa.BasicBlock {
+	cuts := vw.Cuts(fr, f)
+	pr := vw.pruner(fr)
+	for _, t := range targets {
+		if errKind == 1 && vw.retEstablishes(fr, f, t, true) {
+			continue
+		}
+		if errKind == 2 && vw.retEstablishes(fr, f, t, false) {
+			continue
+		}
+		if p := c06FindPath(pr, entryPoint(fr.Fn), t.Target(), cuts); p != nil {
+			return p
+		}
+	}
+	return nil
+}
+
+// MustPassReturns: one obligation per return statement of the root, keyed <fn>#return<N><suffix>.
+func (vw *c06View) MustPassReturns(rule string, targets []RetPoint, f *c06Fact, errKind int, suffix, what string) bool {
+	c, fn := vw.c, vw.Root.Fn
+	okAll := true
+	grouped := map[int][]RetPoint{}
+	var ords []int
+	for _, t := range targets {
+		o := retOrdinal(fn, t.Ret)
+		if _, ok := grouped[o]; !ok {
+			ords = append(ords, o)
+		}
+		grouped[o] = append(grouped[o], t)
+	}
+	sort.Ints(ords)
+	for _, o := range ords {
+		wit := vw.PathToReturns(vw.Root, grouped[o], f, errKind)
+		construct := fmt.Sprintf("%s#return%d%s", fnName(fn), o, suffix)
+		pos := grouped[o][0].Ret.Pos()
+		if wit == nil {
+			c.Ok(rule, construct, "every path to this return passes "+what, pos)
+		} else {
+			okAll = false
+			c.Violate(rule, construct, "a path reaches this return without passing "+what, pos, c.describePath(wit)...)
+		}
+	}
+	return okAll
+}
+
+// MustPassTo: every inter-procedural path from the root's entry to instruction in (of frame fr) passes the
+// fact: at some level of the frame chain the way to the instruction (resp. to the call that leads to it) is cut.
+// Returns a witness path of the outermost level otherwise.
+func (vw *c06View) MustPassTo(fr *c06Frame, in ssa.Instruction, f *c06Fact) (bool, []*ssa.BasicBlock) {
+	var wit []*ssa.BasicBlock
+	for ; fr != nil; in, fr = fr.Call, fr.Parent {
+		if in == nil {
+			break
+		}
+		p := c06FindPath(vw.pruner(fr), entryPoint(fr.Fn), Target{Instr: in}, vw.Cuts(fr, f))
+		if p == nil {
+			return true, nil
+		}
+		wit = p
+	}
+	return false, wit
+}
+
+// EscapesFrom: some inter-procedural path from point start (in frame fr) leaves the root function without
+// passing the fact. When the search leaves a helper, the branches of the caller on the helper's boolean / error
+// result are restricted to the outcomes the reachable returns of the helper can produce ("removed(id)" that
+// returns true after deleting: only the true edge of "if !removed(id)" is continued).
+func (vw *c06View) EscapesFrom(fr *c06Frame, start Point, f *c06Fact) []*ssa.BasicBlock {
+	var extra *Cuts
+	for fr != nil {
+		cuts := vw.Cuts(fr, f)
+		if extra != nil {
+			for e := range cuts.Edges {
+				extra.Edges[e] = true
+			}
+			for i := range cuts.Instrs {
+				extra.Instrs[i] = true
+			}
+			for v := range cuts.Via {
+				extra.Via[v] = true
+			}
+			pr := vw.pruner(fr)
+			for pc := range pr.phiCuts[cuts] {
+				pr.AddPhiCut(extra, pc)
+			}
+			cuts = extra
+		}
+		var wit []*ssa.BasicBlock
+		var reached []RetPoint
+		for _, r := range vw.c.c06LiveReturns(fr.Fn) {
+			if p := c06FindPath(vw.pruner(fr), start, r.Target(), cuts); p != nil {
+				wit = p
+				reached = append(reached, r)
+			}
+		}
+		if wit == nil {
+			return nil
+		}
+		if fr.Parent == nil || fr.Call == nil {
+			return wit
+		}
+		if _, isDefer := fr.Call.(*ssa.Defer); isDefer {
+			return wit
+		}
+		// what the reachable returns tell the caller
+		extra = c06ReturnCorrelation(fr, reached)
+		start, fr = after(fr.Call), fr.Parent
+	}
+	return nil
+}
+
+// c06Reach is an inter-procedural reachability query over a view: can a path from some point reach a target
+// instruction (in the frame of the point, in a helper called on the way, or - after returning - in a caller)
+// or a designated exit of the root, without passing the fact?
+type c06Reach struct {
+	vw     *c06View
+	Fact   *c06Fact // nil: nothing is cut
+	Target func(fr *c06Frame, in ssa.Instruction) bool
+	Exit   func(r RetPoint) bool // returns of the root that count as targets (nil: none)
+	inside map[*c06Frame]int
+}
+
+func (q *c06Reach) cuts(fr *c06Frame) *Cuts {
+	if q.Fact == nil {
+		return nil
+	}
+	return q.vw.Cuts(fr, q.Fact)
+}
+
+// candidates: the instructions of fr.Fn that are targets, or calls into helpers in which a target is reachable.
+func (q *c06Reach) candidates(fr *c06Frame) []ssa.Instruction {
+	var out []ssa.Instruction
+	allInstrs(fr.Fn, func(_ *ssa.BasicBlock, _ int, in ssa.Instruction) {
+		if q.Target != nil && q.Target(fr, in) {
+			out = append(out, in)
+			return
+		}
+		if cl, ok := in.(ssa.CallInstruction); ok {
+			if k := fr.child(cl); k != nil && q.insideFromEntry(k) {
+				out = append(out, in)
+			}
+		}
+	})
+	return out
+}
+
+func (q *c06Reach) insideFromEntry(fr *c06Frame) bool {
+	if q.inside == nil {
+		q.inside = map[*c06Frame]int{}
+	}
+	if r := q.inside[fr]; r != 0 {
+		return r == 1
+	}
+	q.inside[fr] = 2
+	for _, cand := range q.candidates(fr) {
+		if c06FindPath(q.vw.pruner(fr), entryPoint(fr.Fn), Target{Instr: cand}, q.cuts(fr)) != nil {
+			q.inside[fr] = 1
+			return true
+		}
+	}
+	return false
+}
+
+// From searches from point start of frame fr (entered from block via, if known).
+func (q *c06Reach) From(fr *c06Frame, start Point, via *ssa.BasicBlock) []*ssa.BasicBlock {
+	vw := q.vw
+	var extra *Cuts
+	for fr != nil {
+		cuts := q.cuts(fr)
+		if extra != nil {
+			if cuts != nil {
+				for e := range cuts.Edges {
+					extra.Edges[e] = true
+				}
+				for i := range cuts.Instrs {
+					extra.Instrs[i] = true
+				}
+				for v := range cuts.Via {
+					extra.Via[v] = true
+				}
+				pr := vw.pruner(fr)
+				for pc := range pr.phiCuts[cuts] {
+					pr.AddPhiCut(extra, pc)
+				}
+			}
+			cuts = extra
+		}
+		pr := vw.pruner(fr)
+		for _, cand := range q.candidates(fr) {
+			if p := c06FindPathVia(pr, start, via, Target{Instr: cand}, cuts); p != nil {
+				return p
+			}
+		}
+		var reached []RetPoint
+		var wit []*ssa.BasicBlock
+		for _, r := range vw.c.c06LiveReturns(fr.Fn) {
+			if p := c06FindPathVia(pr, start, via, r.Target(), cuts); p != nil {
+				reached = append(reached, r)
+				if fr.Parent == nil && q.Exit != nil && q.Exit(r) {
+					wit = p
+				}
+			}
+		}
+		if fr.Parent == nil || fr.Call == nil {
+			return wit
+		}
+		if len(reached) == 0 {
+			return nil
+		}
+		if _, isDefer := fr.Call.(*ssa.Defer); isDefer {
+			return nil
+		}
+		extra = c06ReturnCorrelation(fr, reached)
+		start, via, fr = after(fr.Call), nil, fr.Parent
+	}
+	return nil
+}
+
+// c06ReturnCorrelation: what the returns a helper can be left through tell its caller: edges of the caller's
+// branches on the helper's boolean / error results that cannot be taken.
+func c06ReturnCorrelation(fr *c06Frame, reached []RetPoint) *Cuts {
+	extra := newCuts()
+	pfn := fr.Parent.Fn
+	cv := fr.Call.Value()
+	if cv == nil {
+		return extra
+	}
+	res := fr.Fn.Signature.Results()
+	for i := 0; i < res.Len(); i++ {
+		if !c06IsBoolType(res.At(i).Type()) {
+			continue
+		}
+		allT, allF := true, true
+		for _, r := range reached {
+			b, isC := constBool(c06RetVal(r.Ret, i))
+			if !isC || !b {
+				allT = false
+			}
+			if !isC || b {
+				allF = false
+			}
+		}
+		if bv := extractN(cv, i); bv != nil {
+			t, fl := boolEdges(pfn, bv)
+			if allT {
+				extra.AddEdges(fl...)
+			}
+			if allF {
+				extra.AddEdges(t...)
+			}
+		}
+	}
+	if c06ErrIndex(fr.Fn.Signature) >= 0 {
+		allOK, allErr := true, true
+		for _, r := range reached {
+			if r.Class != "success" {
+				allOK = false
+			}
+			if r.Class != "error" {
+				allErr = false
+			}
+		}
+		succ, fail, _ := callErrEdges(pfn, cv)
+		if allOK {
+			extra.AddEdges(fail...)
+		}
+		if allErr {
+			extra.AddEdges(succ...)
+		}
+	}
+	return extra
+}
+
+// lift: the instruction of frame to's function that leads to instruction in of frame fr (in itself when fr==to,
+// else the call instruction through which fr is reached); nil when fr is not below to.
+func c06Lift(fr *c06Frame, in ssa.Instruction, to *c06Frame) ssa.Instruction {
+	for ; fr != nil; in, fr = fr.Call, fr.Parent {
+		if fr == to {
+			return in
+		}
+	}
+	return nil
+}
+
+// ---------------------------------------------------------------------------
+// who-may tables with private helpers
+
+// c06ValueUses: module functions that are used as values (method values, function values) somewhere.
+func (c *Ctx) c06UsedAsValue(f *ssa.Function) bool {
+	used := false
+	for _, fn := range c.ModFns {
+		allInstrs(fn, func(_ *ssa.BasicBlock, _ int, in ssa.Instruction) {
+			if used {
+				return
+			}
+			for _, op := range in.Operands(nil) {
+				if *op != ssa.Value(f) {
+					continue
+				}
+				if cl, ok := in.(ssa.CallInstruction); ok && cl.Common().Value == ssa.Value(f) && !cl.Common().IsInvoke() {
+					// the callee position; an argument position is a value use
+					n := 0
+					for _, a := range cl.Common().Args {
+						if a == ssa.Value(f) {
+							n++
+						}
+					}
+					if n == 0 {
+						continue
+					}
+				}
+				used = true
+			}
+		})
+		if used {
+			break
+		}
+	}
+	return used
+}
+
+// c06AllowedTops: the allowed functions on whose behalf f acts: f itself (its outermost function) when it is in
+// allow; otherwise, when f is an unexported function that is never used as a value and every one of its call
+// sites lies in a function that is (recursively, depth <= c06MaxDepth) allowed, the union of those. ok=false
+// when some way of reaching f is not allowed. When in is given (an instruction of f) a call site from which in
+// cannot be reached - the helper's boolean flag parameters being what that site passes - does not count
+// ("lookup(id, false)" never reaches the delete guarded by the flag).
+func (c *Ctx) c06AllowedTops(f *ssa.Function, allow map[*ssa.Function]bool, depth int) (tops []*ssa.Function, ok bool) {
+	return c.c06AllowedTopsFor(f, nil, allow, depth)
+}
+
+func (c *Ctx) c06AllowedTopsFor(f *ssa.Function, in ssa.Instruction, allow map[*ssa.Function]bool, depth int) (tops []*ssa.Function, ok bool) {
+	t := topFn(f)
+	if allow[t] {
+		return []*ssa.Function{t}, true
+	}
+	if depth >= c06MaxDepth || t.Object() == nil || t.Object().Exported() || c.c06UsedAsValue(t) {
+		return nil, false
+	}
+	sites := c.callSites(t.Object())
+	if len(sites) == 0 {
+		return nil, false
+	}
+	seen := map[*ssa.Function]bool{}
+	for _, s := range sites {
+		if in != nil && f == t {
+			vw := c.c06NewView(s.Fn)
+			if k := vw.Root.child(s.Call); k != nil {
+				if c06FindPath(vw.pruner(k), entryPoint(t), Target{Instr: in}, nil) == nil {
+					continue // this caller never gets there
+				}
+			}
+		}
+		ts, ok := c.c06AllowedTopsFor(s.Fn, s.Call, allow, depth+1)
+		if !ok {
+			return nil, false
+		}
+		for _, x := range ts {
+			if !seen[x] {
+				seen[x] = true
+				tops = append(tops, x)
+			}
+		}
+	}
+	return tops, true
+}
+
+// c06WhoMay is whoMay in which a private helper of allowed functions is an allowed site; it returns the
+// number of distinct allowed functions that (directly or through such helpers) do the thing.
+func (c *Ctx) c06WhoMay(rule, what string, got []*ssa.Function, poss map[*ssa.Function]token.Pos, allow map[*ssa.Function]bool) int {
+	seen := map[*ssa.Function]bool{}
+	users := map[*ssa.Function]bool{}
+	for _, f := range got {
+		t := topFn(f)
+		if seen[t] {
+			continue
+		}
+		seen[t] = true
+		construct := what + "@" + fnName(t)
+		if allow[t] {
+			users[t] = true
+			c.Ok(rule, construct, fnName(t)+" is an allowed site of "+what, poss[f])
+			continue
+		}
+		if tops, ok := c.c06AllowedTops(t, allow, 0); ok {
+			for _, x := range tops {
+				users[x] = true
+			}
+			var names []string
+			for _, x := range tops {
+				names = append(names, fnName(x))
+			}
+			sort.Strings(names)
+			c.Ok(rule, construct, fnName(t)+" is a helper only reachable from allowed sites of "+what+" ("+fmt.Sprint(names)+")", poss[f])
+			continue
+		}
+		c.Violate(rule, construct, fnName(t)+" must not "+what+" (allowed: "+allowNames(allow)+", and unexported helpers called only from them)", poss[f])
+	}
+	return len(users)
 }
